@@ -329,3 +329,69 @@ def run_send_sync(ctx, F, rule="E-LOCK.sendsync"):
                "between threads although a component is not thread-safe"
                % (tr.rsplit("::", 1)[1], r["self"], r["file"], r["line"], lacking))
     ctx.floor(rule, "unsafe impl Send/Sync items", n, 25)
+
+
+def run_recursor_depth(ctx, F, rule="E-REC.depth"):
+    """The parallel recursion of the apply algorithms splits into tasks while `remaining_depth` is positive and continues
+    sequentially afterwards.  Termination of the splitting (and no underflow of the counter) rests on three facts read
+    from MIR of both recursor modules: every splitting method of `ParallelRecursor` decrements `remaining_depth` by one
+    and never increments it; `ParallelRecursor::should_switch_to_sequential` is `remaining_depth == 0`; the
+    `SequentialRecursor` never asks for a switch (constant false -- `true` would make the algorithms call themselves
+    forever)."""
+    n = 0
+    for crate in ("oxidd_rules_bdd", "oxidd_rules_zbdd"):
+        base = crate + "::recursor::"
+        par = [f for f in F.mir if f.startswith(base + "mt::") and "{closure" not in f]
+        if not ctx.anchor(rule, "%s ParallelRecursor methods" % crate, len(par) >= 4):
+            continue
+        bad = []
+        nsplit = 0
+        for fid in sorted(par):
+            m = F.mir[fid]
+            B = cfg.Body(m)
+            name = fid.rsplit("::", 1)[-1]
+            writes = []
+            for i in sorted(B.reach):
+                b = m["blocks"][i]
+                if b["c"]:
+                    continue
+                for s in b["s"]:
+                    lhs = s.get("lhs")
+                    if isinstance(lhs, dict) and lhs.get("p") and str(lhs["p"][-1]).startswith(".remaining_depth@"):
+                        rv = s.get("rv") or {}
+                        if rv.get("k") in ("bin", "checked") and cfg.const_int(rv.get("b")) == 1:
+                            writes.append(rv["o"][:3])
+                        elif rv.get("k") == "use":
+                            writes.append("mv")
+                        else:
+                            writes.append("?")
+            joins = [i for i, t in B.calls() if re.search(r"::join$|::join3$|::scope$", cfg.callee_name(t) or "")]
+            if name == "should_switch_to_sequential":
+                # return value: Eq(remaining_depth, 0)
+                ok = any((s.get("rv") or {}).get("k") == "bin" and s["rv"].get("o") == "Eq" and cfg.const_int(s["rv"].get("b")) == 0
+                         and s.get("lhs") == 0 for b in m["blocks"] for s in b["s"])
+                n += 1
+                ctx.ob(rule, "%s:%s:switch" % (rule, crate), ok,
+                       "%s (%s): %s" % (F.nice(fid), F.where(fid), "switches exactly when remaining_depth == 0" if ok else
+                                        "does not return `remaining_depth == 0`"))
+            elif joins:
+                nsplit += 1
+                subs = [w for w in writes if w == "Sub"]
+                others = [w for w in writes if w not in ("Sub", "mv")]
+                if len(subs) < 1 or others:
+                    bad.append("%s (%s): writes %r to remaining_depth" % (name, F.where(fid), writes))
+        n += 1
+        ctx.ob(rule, "%s:%s:decrement" % (rule, crate), not bad and nsplit >= 3,
+               "%s ParallelRecursor: %s" % (crate, "%d splitting methods, each decrements remaining_depth" % nsplit if not bad and nsplit >= 3
+                                            else "; ".join(bad) or "only %d splitting methods found" % nsplit))
+        seq = [f for f in F.mir if f.startswith(base) and "::mt::" not in f and f.endswith("::should_switch_to_sequential")]
+        for fid in seq:
+            m = F.mir[fid]
+            ok = any(s.get("lhs") == 0 and (s.get("rv") or {}).get("k") == "use" and str(((s.get("rv") or {}).get("op") or {}).get("c")) == "false"
+                     for b in m["blocks"] for s in b["s"])
+            n += 1
+            ctx.ob(rule, "%s:%s:sequential" % (rule, crate), ok,
+                   "%s (%s): %s" % (F.nice(fid), F.where(fid), "never asks for a switch" if ok else
+                                    "does not return the constant false: an algorithm that switches to the sequential recursor "
+                                    "would switch again, forever"))
+    return n
